@@ -197,6 +197,9 @@ class Exporter:
             # Traversed in reverse order to only include the active spines at the given measure...
             from_stage = document.measure_start_tree_stages[options.from_measure - 1]
             next_nodes = document.tree.stages[from_stage]
+            live_paths = {}  # header node -> number of sub-spines of that spine alive at the first exported stage
+            for node in next_nodes:
+                live_paths[node.header_node] = live_paths.get(node.header_node, 0) + 1
             while next_nodes and len(next_nodes) > 0 and next_nodes[0] != document.tree.root:
                 row = []
                 new_next_nodes = []
@@ -214,7 +217,8 @@ class Exporter:
                         non_place_holder_in_row = True
                     elif spine_operation_row:
                         # either if it is the split operator that has been cancelled, or the join one
-                        if isinstance(node.token, SpineOperationToken) and (node.token.is_cancelled_at(
+                        # a spine that is back to a single sub-spine needs none of its earlier splits and joins
+                        if isinstance(node.token, SpineOperationToken) and (live_paths.get(node.header_node) == 1 or node.token.is_cancelled_at(
                                 from_stage) or node.last_spine_operator_node and node.last_spine_operator_node.token.cancelled_at_stage == node.stage):
                             content = '*'
                         else:
